@@ -216,9 +216,16 @@ def _bitop(ip, op, a, b):
         # constant mask: x & m is the sum of the selected bits (floor div/mod = two's complement for negatives too)
         m = bv
         bits = [b for b in range(m.bit_length()) if (m >> b) & 1]
-        and_e = z3.IntVal(0)
+        # group the selected bits into contiguous runs [lo, hi): x & run == ((x div 2^lo) mod 2^(hi-lo)) * 2^lo
+        runs = []
         for b_ in bits:
-            and_e = and_e + ((x / (1 << b_)) % 2) * (1 << b_)
+            if runs and runs[-1][1] == b_:
+                runs[-1][1] = b_ + 1
+            else:
+                runs.append([b_, b_ + 1])
+        and_e = z3.IntVal(0)
+        for lo_, hi_ in runs:
+            and_e = and_e + ((x / (1 << lo_)) % (1 << (hi_ - lo_))) * (1 << lo_)
         if not ip.st.merge and len(bits) > 1:
             # when the path already fixes the masked bits, use the constant (keeps later queries linear)
             if not ip.st.feasible(and_e != 0):
@@ -503,6 +510,34 @@ def dedupe(ip, items):
 
 
 # ---------------------------------------------------------------- sequences
+def seq_peel_last(e, k=1):
+    """if the sequence expression syntactically ends in k unit elements, return (prefix expr, [elements]) else None"""
+    e = simp(e)
+    if not z3.is_app(e):
+        return None
+    kind = e.decl().kind()
+    if kind == z3.Z3_OP_SEQ_UNIT and k == 1:
+        return z3.Empty(e.sort()), [e.arg(0)]
+    if kind != z3.Z3_OP_SEQ_CONCAT:
+        return None
+    args = [e.arg(i) for i in range(e.num_args())]
+    flat = []
+    stack = list(reversed(args))
+    while stack:
+        a = stack.pop()
+        if z3.is_app(a) and a.decl().kind() == z3.Z3_OP_SEQ_CONCAT:
+            stack.extend(reversed([a.arg(i) for i in range(a.num_args())]))
+        else:
+            flat.append(a)
+    elems = []
+    while len(elems) < k and flat and z3.is_app(flat[-1]) and flat[-1].decl().kind() == z3.Z3_OP_SEQ_UNIT:
+        elems.append(flat.pop().arg(0))
+    if len(elems) < k:
+        return None
+    prefix = z3.Empty(e.sort()) if not flat else (flat[0] if len(flat) == 1 else z3.Concat(*flat))
+    return prefix, list(reversed(elems))
+
+
 def seq_len(ip, v):
     if isinstance(v, SV):
         if v.kind in ('bytes', 'str') or v.kind[0] == 'seq':
